@@ -581,19 +581,19 @@ class HybridLoad:
                 # Currently the exact times of the heating and cooling peaks are not stored. If further work is done
                 # this default can be made to be more accurate.
                 if ipf[i]:
+                    # noon of the common peak day; the breakpoints of this arm are taken from it, not from the
+                    # window starts above, which may have been moved to keep them from being negative
+                    same_day_noon = first_month_hour(i, self.years) + (self.monthly_peak_cl_day[i]) * HRS_IN_DAY + 12
                     # monthly average conditions before cooling peak
                     if self.monthly_peak_cl[i] > 0 and ipf[i]:
                         # last_avg_hour = first_hour_cooling_peak - 1 JDS corrected 20200604
-                        last_avg_hour = first_hour_cooling_peak - self.monthly_peak_cl_duration[i] / 2
+                        last_avg_hour = same_day_noon - self.monthly_peak_cl_duration[i]
                         self.load = np.append(self.load, month_rate)
                         self.hour = np.append(self.hour, last_avg_hour)
                         # cooling peak
                         # self.load = np.append(self.load, -self.monthly_peak_cl[i]) JDS corrected 20200604
                         self.load = np.append(self.load, self.monthly_peak_cl[i])
-                        self.hour = np.append(
-                            self.hour,
-                            last_hour_cooling_peak - self.monthly_peak_cl_duration[i] / 2,
-                        )
+                        self.hour = np.append(self.hour, same_day_noon)
 
                         if last_avg_hour - peak_last_avg_hour < 0.0:
                             warnings.warn(warn_msg_neg_timestep)
@@ -602,17 +602,14 @@ class HybridLoad:
                     if self.monthly_peak_hl[i] > 0 and ipf[i]:
                         if not self.monthly_peak_cl[i] > 0:
                             # no cooling peak ahead of the heating peak: monthly average conditions up to noon
-                            last_avg_hour = first_hour_heating_peak + self.monthly_peak_hl_duration[i] / 2
+                            last_avg_hour = same_day_noon
                             self.load = np.append(self.load, month_rate)
                             self.hour = np.append(self.hour, last_avg_hour)
                         # heating peak
                         # self.load = np.append(self.load, self.monthly_peak_hl[i]) JDS corrected 20200604
 
                         self.load = np.append(self.load, -self.monthly_peak_hl[i])
-                        self.hour = np.append(
-                            self.hour,
-                            last_hour_heating_peak + self.monthly_peak_hl_duration[i] / 2,
-                        )
+                        self.hour = np.append(self.hour, same_day_noon + self.monthly_peak_hl_duration[i])
 
                         if last_avg_hour - peak_last_avg_hour < 0.0:
                             warnings.warn(warn_msg_neg_timestep)
